@@ -22,6 +22,8 @@ def canon(scn):
     d = {"W": scn["W"], "requests": list(scn["requests"]), "faults": list(scn.get("faults", []))}
     if scn.get("slow"):
         d["slow"] = scn["slow"]
+    if scn.get("api", "play_many") != "play_many":
+        d["api"] = scn["api"]
     return json.dumps(d, sort_keys=True)
 
 
